@@ -75,7 +75,7 @@ inline std::vector<Sched> schedulesFor(vh::Rng& r, bool thorough, int flavourTsa
 }
 
 //================================================================================================ single tree
-template <class E, template <class, class, class> class Algo = TbfOpenmpAlgorithm> void ompSingle(const fmm::Conf<E>& c, const std::vector<Sched>& scheds, Result& res, const char* tag, bool tsanLight, bool directSum = true) {
+template <class E, template <class, class, class> class Algo = TbfOpenmpAlgorithm> void ompSingle(const fmm::Conf<E>& c, const std::vector<Sched>& scheds, Result& res, const char* tag, bool tsanLight, bool directSum = true, bool threadsMayChange = true) {
     constexpr int D = E::Cfg::Dim;
     using Real = typename E::Cfg::RealType;
     const long N = long(c.parts.size());
@@ -93,9 +93,12 @@ template <class E, template <class, class, class> class Algo = TbfOpenmpAlgorith
         rc.currentTask = [] { return vsched::currentTask(); };
         rc.currentWorker = [] { return vsched::currentWorker(); };
         E::CheckedPoly::globalCtx() = &rc;
-        vsched::configure(s.threads, s.policy, s.seed);
+        // OpenMP only (omp_set_num_threads may be called between construction and execute(); a Specx / StarPU team is fixed when the runtime starts):
+        // a third of the runs build the executor while fewer threads are configured than at execute() time (it must grow its per-thread kernels)
+        vsched::configure(threadsMayChange && s.seed % 3 == 0 ? 1 : s.threads, s.policy, s.seed);
         {
             auto algo = std::make_unique<Algo<Real, typename E::CheckedPoly, typename E::Space>>(*pr.cfg, c.upper);
+            vsched::configure(s.threads, s.policy, s.seed);
             algo->execute(*pr.tree);
         }
         const vsched::Log log = vsched::lastLog();
@@ -122,7 +125,7 @@ template <class E, template <class, class, class> class Algo = TbfOpenmpAlgorith
 }
 
 //================================================================================================ target/source
-template <class E, template <class, class, class> class AlgoTsm = TbfOpenmpAlgorithmTsm> void ompTsm(const fmm::TsmConf<E>& c, const std::vector<Sched>& scheds, Result& res, const char* tag, bool tsanLight, bool directSum = true) {
+template <class E, template <class, class, class> class AlgoTsm = TbfOpenmpAlgorithmTsm> void ompTsm(const fmm::TsmConf<E>& c, const std::vector<Sched>& scheds, Result& res, const char* tag, bool tsanLight, bool directSum = true, bool threadsMayChange = true) {
     constexpr int D = E::Cfg::Dim;
     using Real = typename E::Cfg::RealType;
     fmm::TsmPolyRun<E> seq; seq.build(c);
@@ -137,9 +140,10 @@ template <class E, template <class, class, class> class AlgoTsm = TbfOpenmpAlgor
         rc.currentTask = [] { return vsched::currentTask(); };
         rc.currentWorker = [] { return vsched::currentWorker(); };
         E::CheckedPoly::globalCtx() = &rc;
-        vsched::configure(s.threads, s.policy, s.seed);
+        vsched::configure(threadsMayChange && s.seed % 3 == 0 ? 1 : s.threads, s.policy, s.seed);
         {
             auto algo = std::make_unique<AlgoTsm<Real, typename E::CheckedPoly, typename E::Space>>(*pr.cfg, c.upper);
+            vsched::configure(s.threads, s.policy, s.seed);
             algo->execute(*pr.tree);
         }
         const vsched::Log log = vsched::lastLog();
@@ -481,13 +485,13 @@ template <class E, template <class, class, class> class Algo, template <class, c
             auto c = fmm::randomConf<E>(r, vh::mix(seed, kk), 100, false, 1);
             const long H = c.geo.H;
             res.desc = fmm::confDesc<E>(c) + " executor=" + name + "(mock runtime) history=upper-levels 0.." + vh::str(H + 1);
-            for (long up = 0; up <= H + 1; ++up) { auto cc = c; cc.upper = up; ompSingle<E, Algo>(cc, pick(th ? 2 : 1), res, tag.c_str(), false, up == defUp); res.ev("upper-level-runs"); }
+            for (long up = 0; up <= H + 1; ++up) { auto cc = c; cc.upper = up; ompSingle<E, Algo>(cc, pick(th ? 2 : 1), res, tag.c_str(), false, up == defUp, false); res.ev("upper-level-runs"); }
             res.sig = name + "-upper:" + fmm::confSig<E>(c, vh::mix(c.seed, 12)); res.nontrivial = H >= 3;
         } else {
             auto c = fmm::randomTsmConf<E>(r, vh::mix(seed, kk), 80, 1);
             const long H = c.geo.H;
             res.desc = fmm::tsmDesc<E>(c) + " executor=" + name + "Tsm(mock runtime) history=upper-levels 0.." + vh::str(H + 1);
-            for (long up = 0; up <= H + 1; ++up) { auto cc = c; cc.upper = up; ompTsm<E, AlgoTsm>(cc, pick(th ? 2 : 1), res, tag.c_str(), false, up == defUp); res.ev("upper-level-runs"); }
+            for (long up = 0; up <= H + 1; ++up) { auto cc = c; cc.upper = up; ompTsm<E, AlgoTsm>(cc, pick(th ? 2 : 1), res, tag.c_str(), false, up == defUp, false); res.ev("upper-level-runs"); }
             res.sig = name + "-tsm-upper:" + vh::str(vh::mix(c.seed, 12)); res.nontrivial = H >= 3;
         }
     };
